@@ -923,7 +923,7 @@ GATHER = {"rm", "rf", "cm", "copy", "cat", "join", "rsl", "m", "f", "fci", "spli
 
 # regions of the scope that fail as a whole on the unchanged tree get ONE signature (README: "Failures on the unchanged tree")
 COLLAPSE = {"R.cs:negstep-nonneg-start-on-empty-row", "R.rcs:negstep-nonneg-start-on-empty-row",
-            "R.rows-array-with-column:after-stepped-colslice"}
+            "R.column-int-index:after-stepped-colslice"}
 
 
 def classify(kind, op, value, prev=None):
@@ -942,9 +942,10 @@ def classify(kind, op, value, prev=None):
         name += ":" + op[2]
     if k == "eq_self":
         name += ":" + op[1]
-    if k in ("pf", "fci", "as_pf", "as_fcol") and any(h[0] in ("cs", "rcs") and h[-1][2] not in (None, 1) for h in (prev or [])):
-        # a[row-index-array, column(s)] on a lazy view that descends from a[:, ::step], step != 1: fails as a region on the unchanged tree
-        return "R.rows-array-with-column:after-stepped-colslice"
+    if k in ("pf", "fci", "ci", "it", "as_pf", "as_fcol", "as_col", "as_item") and any(h[0] in ("cs", "rcs") and h[-1][2] not in (None, 1) for h in (prev or [])):
+        # an integer column index (a[:, j], a[i, j], a[rows, j], a[rows, cols]) on a lazy view that descends from
+        # a[:, ::step], step != 1, ignores the step: fails as a region on the unchanged tree
+        return "R.column-int-index:after-stepped-colslice"
     if k == "sa" and value and not any(value):
         name += ":all-rows-empty"
     return name
@@ -1129,15 +1130,15 @@ def plan(tier):
     P.append(("d1-other-encodings", ENCS_OTHER, "R", REPR_SHAPES, [False], 1, "core" if q else "mid", None))
     P.append(("d1-other-encodings-flat", ENCS_OTHER, "F", [(0,), (1,), (3,)] if q else [(0,), (1,), (3,), (4,)], [True], 1, "mid", None))
     # depth 2 --------------------------------------------------------------------------------------------------------
-    P.append(("d2", ["base"], "R", [(), (0,), (2,), (0, 0), (3, 1), (0, 2), (2, 0, 3), (1, 1, 1)] if q else shapes(3, 2) + [(1, 0, 0, 2), (3, 3, 3)],
+    P.append(("d2", ["base"], "R", REPR_SHAPES if q else shapes(3, 2) + [(1, 0, 0, 2), (3, 3, 3)],
               [False], 2, "core" if q else "mid", None))
-    P.append(("d2", ["dna"], "R", [(0, 2), (2, 0, 3), (1, 0, 0, 2)] if q else REPR_SHAPES, [False], 2, "core" if q else "mid", None))
+    P.append(("d2", ["dna"], "R", [(0, 2), (3, 1), (2, 0, 3), (0, 3, 0), (1, 0, 0, 2)] if q else REPR_SHAPES, [False], 2, "core" if q else "mid", None))
     P.append(("d2-flat", ENCS_MAIN, "F", [(L,) for L in range(0, 5 if q else 7)], [True], 2, "core" if q else "mid", None))
     P.append(("d2-other-encodings", ENCS_OTHER, "R", [(2, 0, 3)] if q else [(2, 0, 3), (0, 2), (3, 1)], [False], 2, "core", 300 if q else None))
     P.append(("d2-other-encodings-flat", ENCS_OTHER, "F", [(4,)], [True], 2, "core", 150 if q else None))
     # depth 3 (sampled with the seed: the space of CORE x CORE x (CORE + observations) is ~65 000 programs per shape) ----
-    P.append(("d3", ENCS_MAIN, "R", REPR_SHAPES, [False], 3, "core", 200 if q else 6000))
-    P.append(("d3-flat", ENCS_MAIN, "F", [(0,), (2,), (4,)], [True], 3, "core", 200 if q else 4000))
+    P.append(("d3", ENCS_MAIN, "R", REPR_SHAPES, [False], 3, "core", 400 if q else 9000))
+    P.append(("d3-flat", ENCS_MAIN, "F", [(0,), (2,), (4,)], [True], 3, "core", 300 if q else 4000))
     return P
 
 
